@@ -32,6 +32,14 @@ func main() {
 		k := len(hs)
 		hs = append(hs, c01lib.TempErrHist(k, []int{2, 4}[nerr%2], nerr, nerr%3, nerr%3, 4))
 	}
+	// the heartbeat's OPTIONS answered with an ERROR frame while other requests are outstanding; and answers
+	// whose header carries another valid protocol version (exec refuses them and must still release the id)
+	for v, proto := range []int{4, 2} {
+		hs = append(hs, c01lib.HeartbeatErrHist(len(hs), proto, 3+v))
+	}
+	for _, proto := range []int{4, 2, 3, 5, 1} {
+		hs = append(hs, c01lib.WrongVersionHist(len(hs), proto, 6))
+	}
 	for i := len(hs); i < n; i++ {
 		hs = append(hs, c01lib.Gen(o.Rng, i, c01lib.Lifecycle))
 	}
